@@ -971,6 +971,30 @@ def run(seed: int, n: int, driver: str = DEFAULT_DRIVER, thorough: bool = False)
             w.oracle["fresh_process_agrees"]["cases"] += 1
             if a != b:
                 w.fail("fresh_process_agrees", c, f"in this process {json.dumps(a)[:300]} / in a fresh interpreter {json.dumps(b)[:300]}")
+        # a relative pulse import whose name clashes with a module that is already imported: only in a fresh interpreter,
+        # because on a tree that has the defect the calls poison every later call of the process
+        good = {"kind": "run", "text": "register q[2]\nprepare_all\nX q[0]\nmeasure_all\n", "gs": True}
+        bad = {"kind": "run", "text": "register q[2]\nX q[0]\n", "gs": True}
+        perr = {"kind": "parse", "text": "register q[2]\nX q[5] $\n", "gs": True, "flags": {}}
+        for mods in (("jaqalpaq", "jaqalpaq.core", "jaqalpaq.error", "harness", "json", "sly"), ("numpy",)):
+            calls = [good, bad, perr]
+            for m in mods:
+                calls += [{"kind": "autoload", "text": f"from .{m} usepulses *\nregister q[1]\n", "with_path": True, "clash": m}, good, bad, perr]
+            case = {"kind": "fresh_sequence", "stream": "module_name_clash", "calls": calls}
+            w.oracle["no_sticky_state"]["cases"] += 1
+            try:
+                outs = fresh_outcomes(calls, pd.path)
+            except BaseException as e:  # noqa
+                w.fail("no_sticky_state", case, f"the interpreter did not survive: {str(e)[-300:]}")
+                continue
+            for k in range(3, len(calls), 4):
+                w.oracle["only_jaqalerror_or_importerror"]["cases"] += 1
+                if outs[k].get("err") != "ImportError":
+                    w.fail("only_jaqalerror_or_importerror", calls[k], f"expected ImportError, got {json.dumps(outs[k])[:200]}")
+                if outs[k + 1:k + 4] != outs[0:3]:
+                    w.fail("no_sticky_state", dict(case, after=calls[k]["clash"]),
+                           f"after `from .{calls[k]['clash']} usepulses *`: {json.dumps(outs[k + 1:k + 4])[:400]} / before: {json.dumps(outs[0:3])[:400]}")
+                    break
     finally:
         pd.close()
 
@@ -1084,6 +1108,10 @@ def replay(case: dict, driver: str = DEFAULT_DRIVER) -> dict:
     try:
         kind = case.get("kind", "run")
         call = dict(case, kind=kind)
+        if kind == "fresh_sequence":
+            outs = fresh_outcomes(case["calls"], pd.path)
+            ok = all(outs[k + 1:k + 4] == outs[0:3] for k in range(3, len(outs), 4))
+            return {"model": None, "impl": outs, "oracle_ok": ok, "detail": "" if ok else "outcomes change after a failing import"}
         impl = _deeper(int(case.get("extra_stack", 0)), lambda: check_call(w, call, pulse_path=pd.path, stream="replay"))
         model = None
         if kind == "run" and driver and "text" in case and "nest" not in case:
